@@ -14,6 +14,23 @@ package c05
 //   filter    filter 'FNR==1' then put '$nr=NR;$k=FILENUM' == first record of
 //             each non-empty file with the counters of the original stream
 //   spelling  --from f1 --from f2 / --mfrom f1 f2 -- / positional agree; -n reads nothing
+//
+// Dimensions of the file alphabet (every reader keeps per-file state - header
+// names, header WIDTH, field splitter, line numbers - that must be reset at each
+// start of file, so every one of them varies between the files of a list):
+//   record count   0 (empty / header-only), 1, 2
+//   key names      schema {a,b} vs {a,x}
+//   width          1, 2 and 3 columns ({a}, {a,b}, {a,b,c}); under --implicit-csv-header
+//                  the width is the ONLY thing that tells two files apart
+//   header flags   {default, --implicit-csv-header} x {default, --allow-ragged-csv-input}
+//                  (full cross product) for CSV, CSV-lite, TSV, TSV-lite
+//   raggedness     (ragged variants only) a file with a too-long row (keys by position,
+//                  as documented) and one with a too-short row (the two documents
+//                  disagree on the fill: its records are taken from the file read alone,
+//                  only the cross-file bookkeeping is asserted)
+//   layout         PPRINT is read by three readers: plain, --barred-input, --fixed
+//                  left-align (column positions taken from each file's own header
+//                  line; one file has the same schema at wider positions)
 
 import (
 	"bytes"
@@ -30,6 +47,15 @@ type ffile struct {
 	text     string
 	recs     []rec // records under the default flags
 	implicit []rec // records under --implicit-csv-header (nil: variant not applicable)
+	// raggedOnly: the file is not rectangular, it is readable only under
+	// --allow-ragged-csv-input and enters the alphabet of those variants only
+	raggedOnly bool
+	// lawOnly: the documentation does not determine the records of this file
+	// (too-short row); they are taken from reading the file alone and only the
+	// cross-file laws and counters are asserted on lists containing it
+	lawOnly bool
+	// thoroughOnly: left out of the quick tier's alphabet
+	thoroughOnly bool
 }
 
 type fformat struct {
@@ -48,6 +74,8 @@ type schema struct {
 var (
 	schemaS1 = schema{[]string{"a", "b"}, [][]string{{"1", "p"}, {"2", "q"}}}
 	schemaS2 = schema{[]string{"a", "x"}, [][]string{{"3", "r"}, {"4", "s"}}}
+	schemaS3 = schema{[]string{"a", "b", "c"}, [][]string{{"5", "t", "u"}, {"6", "v", "w"}}} // width 3
+	schemaS0 = schema{[]string{"a"}, [][]string{{"7"}, {"8"}}}                               // width 1
 )
 
 func (s schema) recs(n int, keys []string) []rec {
@@ -149,6 +177,62 @@ func markdownWriter(s schema, n int) string {
 	return sb.String()
 }
 
+// barredWriter writes PPRINT with bars, as `mlr --opprint --barred` does.
+func barredWriter(s schema, n int) string {
+	w := make([]int, len(s.keys))
+	for j, k := range s.keys {
+		w[j] = len(k)
+		for i := 0; i < n; i++ {
+			if len(s.rows[i][j]) > w[j] {
+				w[j] = len(s.rows[i][j])
+			}
+		}
+	}
+	sep := "+"
+	for _, x := range w {
+		sep += strings.Repeat("-", x+2) + "+"
+	}
+	sep += "\n"
+	line := func(cells []string) string {
+		l := "|"
+		for j, c := range cells {
+			l += " " + c + strings.Repeat(" ", w[j]-len(c)) + " |"
+		}
+		return l + "\n"
+	}
+	out := sep + line(s.keys) + sep
+	for i := 0; i < n; i++ {
+		out += line(s.rows[i])
+	}
+	if n > 0 {
+		out += sep
+	}
+	return out
+}
+
+// fixedWriter writes left-aligned fixed-width columns, every column but the last
+// padded to colw characters, so the column positions are a function of (schema
+// width, colw): what --fixed left-align derives from the header line of a file.
+func fixedWriter(colw int) fwriter {
+	return func(s schema, n int) string {
+		line := func(cells []string) string {
+			l := ""
+			for j, c := range cells {
+				if j < len(cells)-1 {
+					c += strings.Repeat(" ", colw-len(c))
+				}
+				l += c
+			}
+			return l + "\n"
+		}
+		out := line(s.keys)
+		for i := 0; i < n; i++ {
+			out += line(s.rows[i])
+		}
+		return out
+	}
+}
+
 func formats() []fformat {
 	var out []fformat
 	// build the standard alphabet from a writer
@@ -181,6 +265,10 @@ func formats() []fformat {
 			ffile{tag: "A2", text: w(schemaS1, 2), recs: schemaS1.recs(2, keysOf(schemaS1)), implicit: implicitOf(schemaS1, 2)},
 			ffile{tag: "B1", text: w(schemaS2, 1), recs: schemaS2.recs(1, keysOf(schemaS2)), implicit: implicitOf(schemaS2, 1)},
 			ffile{tag: "B2", text: w(schemaS2, 2), recs: schemaS2.recs(2, keysOf(schemaS2)), implicit: implicitOf(schemaS2, 2)},
+			// width dimension: 3 columns (1 and 2 records) and 1 column
+			ffile{tag: "D1", text: w(schemaS3, 1), recs: schemaS3.recs(1, keysOf(schemaS3)), implicit: implicitOf(schemaS3, 1)},
+			ffile{tag: "D2", thoroughOnly: true, text: w(schemaS3, 2), recs: schemaS3.recs(2, keysOf(schemaS3)), implicit: implicitOf(schemaS3, 2)},
+			ffile{tag: "W1", text: w(schemaS0, 1), recs: schemaS0.recs(1, keysOf(schemaS0)), implicit: implicitOf(schemaS0, 1)},
 		)
 		if noNewlineVariant {
 			f.files = append(f.files, ffile{tag: "N1", text: strings.TrimSuffix(w(schemaS1, 1), "\n"), recs: schemaS1.recs(1, keysOf(schemaS1)), implicit: implicitOf(schemaS1, 1)})
@@ -192,18 +280,38 @@ func formats() []fformat {
 	dx := std("dkvpx", []string{"-i", "dkvpx"}, pairWriter("=", ",", "\n", ""), false, false, true)
 	out = append(out, dx)
 	out = append(out, std("nidx", []string{"--inidx", "--ifs", " "}, sepWriter(" ", false), true, false, true))
+	// files that are not rectangular (ragged variants only). R2: the second data
+	// row is too long ("use integer field labels as in the implicit-header case");
+	// Q1: the data row is too short (flag help: filled with empty strings;
+	// record-heterogeneity.md: left short - not determined, law only).
+	raggedFiles := func(fs string) []ffile {
+		j := func(c ...string) string { return strings.Join(c, fs) + "\n" }
+		return []ffile{
+			{tag: "R2", raggedOnly: true, text: j("a", "b") + j("5", "t") + j("6", "u", "v"),
+				recs:     []rec{{kv{"a", "5"}, kv{"b", "t"}}, {kv{"a", "6"}, kv{"b", "u"}, kv{"3", "v"}}},
+				implicit: []rec{{kv{"1", "a"}, kv{"2", "b"}}, {kv{"1", "5"}, kv{"2", "t"}}, {kv{"1", "6"}, kv{"2", "u"}, kv{"3", "v"}}}},
+			{tag: "Q1", raggedOnly: true, lawOnly: true, text: j("a", "b", "c") + j("5", "t"), recs: []rec{}, implicit: []rec{}},
+		}
+	}
 	csv := std("csv", []string{"--icsv"}, sepWriter(",", true), false, true, true)
 	csv.implicit, csv.ragged = true, true
+	csv.files = append(csv.files, raggedFiles(",")...)
 	out = append(out, csv)
 	cl := std("csvlite", []string{"--icsvlite"}, sepWriter(",", true), false, true, true)
-	cl.implicit = true
+	cl.implicit, cl.ragged = true, true
+	cl.files = append(cl.files, raggedFiles(",")...)
 	// csvlite schema change inside one file: blank line, then a new header
 	cl.files = append(cl.files, ffile{tag: "M2", text: sepWriter(",", true)(schemaS1, 1) + "\n" + sepWriter(",", true)(schemaS2, 1),
 		recs: append(schemaS1.recs(1, schemaS1.keys), schemaS2.recs(1, schemaS2.keys)...)})
 	out = append(out, cl)
 	tsv := std("tsv", []string{"--itsv"}, sepWriter("\t", true), false, true, true)
-	tsv.implicit = true
+	tsv.implicit, tsv.ragged = true, true
+	tsv.files = append(tsv.files, raggedFiles("\t")...)
 	out = append(out, tsv)
+	tl := std("tsvlite", []string{"--itsvlite"}, sepWriter("\t", true), false, true, true)
+	tl.implicit, tl.ragged = true, true
+	tl.files = append(tl.files, raggedFiles("\t")...)
+	out = append(out, tl)
 	js := std("json", []string{"--ijson"}, jsonListWriter, false, false, true)
 	// format-specific variants: empty list, concatenated objects without the outer list
 	js.files = append(js.files,
@@ -218,6 +326,12 @@ func formats() []fformat {
 	pp.files = append(pp.files, ffile{tag: "M2", text: sepWriter(" ", true)(schemaS1, 1) + "\n" + sepWriter(" ", true)(schemaS2, 1),
 		recs: append(schemaS1.recs(1, schemaS1.keys), schemaS2.recs(1, schemaS2.keys)...)})
 	out = append(out, pp)
+	// the two other PPRINT readers
+	out = append(out, std("pprint-barred", []string{"--ipprint", "--barred-input"}, barredWriter, false, true, false))
+	pf := std("pprint-fixed", []string{"--ipprint", "--fixed", "left-align"}, fixedWriter(3), false, true, true)
+	// same schema as A1, columns at other positions
+	pf.files = append(pf.files, ffile{tag: "AW1", text: fixedWriter(6)(schemaS1, 1), recs: schemaS1.recs(1, schemaS1.keys)})
+	out = append(out, pf)
 	out = append(out, std("markdown", []string{"--imd"}, markdownWriter, false, true, false))
 	out = append(out, std("yaml", []string{"--iyaml"}, pairWriter(": ", "\n", "\n", "---\n"), false, false, false))
 	out = append(out, std("dcf", []string{"--idcf"}, pairWriter(": ", "\n", "\n", "\n"), false, false, false))
@@ -304,18 +418,24 @@ func recsString(rs []rec) string {
 const countersProgram = `$nf0=NF;$t1=0;$t2=0;$nf1=NF;unset $t1,$t2;$nf2=NF;$nr=NR;$fnr=FNR;$f=FILENAME;$k=FILENUM`
 
 type fvariant struct {
-	name  string
-	flags []string
-	impl  bool
+	name   string
+	flags  []string
+	impl   bool
+	ragged bool
 }
 
+// variantsOf: the full cross product {explicit, implicit header} x {strict, ragged}
+// of the flags the format documents.
 func variantsOf(f fformat) []fvariant {
-	vs := []fvariant{{"default", nil, false}}
+	vs := []fvariant{{"default", nil, false, false}}
 	if f.implicit {
-		vs = append(vs, fvariant{"implicit-header", []string{"--implicit-csv-header"}, true})
+		vs = append(vs, fvariant{"implicit-header", []string{"--implicit-csv-header"}, true, false})
 	}
 	if f.ragged {
-		vs = append(vs, fvariant{"allow-ragged", []string{"--allow-ragged-csv-input"}, false})
+		vs = append(vs, fvariant{"allow-ragged", []string{"--allow-ragged-csv-input"}, false, true})
+	}
+	if f.implicit && f.ragged {
+		vs = append(vs, fvariant{"implicit-header+allow-ragged", []string{"--implicit-csv-header", "--allow-ragged-csv-input"}, true, true})
 	}
 	return vs
 }
@@ -338,23 +458,62 @@ func filesWorker(w *vf.Worker) {
 				if va.impl && ff.implicit == nil {
 					continue
 				}
+				if ff.raggedOnly && !va.ragged {
+					continue
+				}
+				if ff.thoroughOnly && w.Quick() {
+					continue
+				}
 				files = append(files, ff)
 			}
 			vfs := vf.VFS{}
 			for _, ff := range files {
 				vfs[fileName(f, ff)] = ff.text
 			}
+			base := append(append([]string{}, f.flags...), va.flags...)
+			base = append(base, "--ojsonl")
+			// every file read alone (default batch size): one side of the concatenation
+			// law, and the records of the files the documentation leaves open
+			const failed = "\x00FAILED"
+			perFile := map[string]string{}
+			perFileRecs := map[string][]rec{}
+			single := func(ff ffile) string {
+				nm := fileName(f, ff)
+				o, ok := perFile[nm]
+				if ok {
+					return o
+				}
+				r := vf.RunMlr(append(append([]string{}, base...), "cat", nm), vf.MlrOpts{Files: vfs})
+				o = r.Stdout
+				if !r.OK() {
+					w.Violation(fmt.Sprintf("files[single-file-fails;%s]:%s:%s", f.name, va.name, ff.tag), "cat of a single generated file fails: "+r.String(), map[string]any{"file": ff.text, "args": strings.Join(base, " ") + " cat " + nm})
+					o = failed
+				} else if ff.lawOnly {
+					rs, err := parseJSONL(o)
+					if err != nil {
+						w.Violation(fmt.Sprintf("files[single-file-unparsable;%s]:%s:%s", f.name, va.name, ff.tag), "cat of a single generated file prints something that is not JSON Lines: "+err.Error(), map[string]any{"file": ff.text, "stdout": o})
+						o = failed
+					}
+					perFileRecs[nm] = rs
+				}
+				perFile[nm] = o
+				return o
+			}
 			exp := func(ff ffile) []rec {
+				if ff.lawOnly {
+					single(ff)
+					return perFileRecs[fileName(f, ff)]
+				}
 				if va.impl {
 					return ff.implicit
 				}
 				return ff.recs
 			}
-			base := append(append([]string{}, f.flags...), va.flags...)
-			base = append(base, "--ojsonl")
-			perFile := map[string]string{}
 			// enumerate lists of 1..maxFiles files, shortest first
 			for n := 1; n <= maxFiles; n++ {
+				if va.ragged && n > maxFiles-1 {
+					break // the ragged variants (largest alphabet) stop one file short: quick <= 2, thorough <= 3 files
+				}
 				total := 1
 				for i := 0; i < n; i++ {
 					total *= len(files)
@@ -379,6 +538,10 @@ func filesWorker(w *vf.Worker) {
 						nrecs += len(exp(ff))
 					}
 					w.Label(func() string { return f.name + " " + va.name + " " + strings.Join(tags, ",") })
+					for _, ff := range list {
+						w.Count("files_tag:"+f.name+":"+ff.tag, 1)
+					}
+					w.Count("files_variant:"+f.name+":"+va.name, 1)
 					// reference
 					var wantCat, wantCnt, wantFlt []rec
 					nr := 0
@@ -418,19 +581,8 @@ func filesWorker(w *vf.Worker) {
 					concat := ""
 					concatOK := true
 					for _, ff := range list {
-						nm := fileName(f, ff)
-						o, ok := perFile[nm]
-						if !ok {
-							r := vf.RunMlr(append(append([]string{}, base...), "cat", nm), vf.MlrOpts{Files: vfs})
-							if !r.OK() {
-								w.Violation(fmt.Sprintf("files[single-file-fails;%s]:%s:%s", f.name, va.name, ff.tag), "cat of a single generated file fails: "+r.String(), map[string]any{"file": ff.text, "args": strings.Join(base, " ") + " cat " + nm})
-								o = "\x00FAILED"
-							} else {
-								o = r.Stdout
-							}
-							perFile[nm] = o
-						}
-						if o == "\x00FAILED" {
+						o := single(ff)
+						if o == failed {
 							concatOK = false
 						}
 						concat += o
@@ -586,5 +738,5 @@ func filesWorker(w *vf.Worker) {
 			}
 		}
 	}
-	w.Sample(map[string]any{"files": "csv: E,H1,A1,A2,B1,B2,N1", "program": countersProgram})
+	w.Sample(map[string]any{"files": "csv: E,H1,A1,A2,B1,B2,D1,D2,W1,N1 (+R2,Q1 under --allow-ragged-csv-input)", "program": countersProgram})
 }
